@@ -217,11 +217,11 @@ Definition files_of (img : bytes) : outcome (list node) :=
    still there *)
 Theorem C03_remove_only_file_pinned_refuted :
   exists img ops a, edit_and_save_gen no_codec no_codec id_bytes id_bytes no_nvar true 8 ops img = Ok img /\
-    ops = [ORemove false a] /\
+    ops = [ORemove false (TLit a)] /\
     (exists elems pol m, parse_region no_codec id_bytes no_nvar 8 img = Ok (elems, pol) /\
                          find_elems (SText false a) elems = [m]).
 Proof.
-  exists tiny_image, [ORemove false (guid_string tiny_guid)], (guid_string tiny_guid).
+  exists tiny_image, [ORemove false (TLit (guid_string tiny_guid))], (guid_string tiny_guid).
   split; [vm_compute; reflexivity|]. split; [reflexivity|].
   destruct (parse_region no_codec id_bytes no_nvar 8 tiny_image) as [[elems pol]| | |] eqn:E;
     try (vm_compute in E; discriminate).
@@ -232,7 +232,7 @@ Print Assumptions C03_remove_only_file_pinned_refuted.
 
 (* with the repair the file is gone and the size is kept *)
 Example ex_remove_only_file_fixed :
-  match save_of false [ORemove false (guid_string tiny_guid)] with
+  match save_of false [ORemove false (TLit (guid_string tiny_guid))] with
   | Ok out => (zlen out =? zlen tiny_image) && negb (bytes_eqb out tiny_image) &&
               match files_of out with Ok [] => true | _ => false end
   | _ => false
@@ -291,4 +291,13 @@ Proof. vm_compute. reflexivity. Qed.
 Example ex_ambiguous :
   insert_run IEnd (SText true (guid_string (2 :: skipn 1 tiny_guid))) ex_nf
              [NVol ex_vh [] [ex_f2]; NVol ex_vh [] [ex_f2]] = Err E_MULTI.
+Proof. vm_compute. reflexivity. Qed.
+
+(* a pattern is given by the texts it matches in full: "Shell|Fat" on a volume that also holds
+   ShellFull selects the file named Shell only *)
+Definition ex_uiF : node := NSec (mkSec 26 21 26 4 None [83; 104; 101; 108; 108; 70; 117; 108; 108] 0 [] None 0) [1] [].
+Definition ex_f3 : node := NFile (ex_fh 3 7) [3] [ex_uiF].
+Example ex_pattern_set :
+  remove_run 4 (SAny false [[83; 104; 101; 108; 108]]) 255 false [NVol ex_vh [] [ex_f1; ex_f3]]
+  = Ok [NVol ex_vh [] [ex_f3]].
 Proof. vm_compute. reflexivity. Qed.
